@@ -819,6 +819,13 @@ class Emitter:
         if True:
             if k == "ForStmt":
                 init, condvar, cond, inc, body = n["inner"]
+                if init.get("kind") == "DeclStmt" and len([c for c in init.get("inner", []) if c.get("kind") == "VarDecl"]) > 1:
+                    # `for (T a = .., b = ..; ...)`: the declarations are hoisted into an enclosing block (same scope, same order)
+                    self.rules["for-init-multi-decl"] += 1
+                    pre = self.stmt(init, cx, ind + 1)
+                    c_s = self.expr(cond, cx) if cond.get("kind") else ""
+                    n_s = self.expr(inc, cx) if inc.get("kind") else ""
+                    return pad + "{\n" + pre + pad + "  for (; %s; %s)\n" % (c_s, n_s) + lc + self.stmt(self._block(body), cx, ind + 1) + pad + "}\n"
                 i_s = self.stmt(init, cx, 0).strip() if init.get("kind") else ";"
                 if not i_s.endswith(";"):
                     i_s += ";"
